@@ -260,17 +260,24 @@ def dispatch_and_wrap(chk):
     # collocation matrix: span finder and basis routine of one family on each arm
     imod = chk.mod(U.INTERP)
     cm = imod.func("SplineInterpolator1D.collocation_matrix")
+    from ..core import contains as _contains
     ifs = [x for x in cm.body if isinstance(x, ast.If) and src(x.test) == "cubic_uniform_splines"]
-    ok = False
+    ok, bad = None, None
     if len(ifs) == 1:
-        a = src(ifs[0].body).replace(" ", "") if False else "".join(src(s) for s in ifs[0].body).replace(" ", "").replace("\n", ";")
-        b = "".join(src(s) for s in ifs[0].orelse).replace(" ", "").replace("\n", ";")
-        ok = "span,offset=cu_find_span(xmin,xmax,dx,x,ncells)" in a and "cu_basis_funs(span,offset,basis)" in a and \
-            "xmin,xmax,dx,f_ncells=knots" in a and "ncells=int(f_ncells)" in a and "mat[i,js(span)]=basis" in a and \
-            "span=nu_find_span(knots,degree,x)" in b and "nu_basis_funs(knots,degree,x,span,basis)" in b and "mat[i,js(span)]=basis" in b
+        arm_cu = _contains(ifs[0].body, "xmin, xmax, dx, f_ncells = knots\nncells = int(f_ncells)") and \
+            _contains(ifs[0].body, "span, offset = cu_find_span(xmin, xmax, dx, x, ncells)\ncu_basis_funs(span, offset, basis)")
+        arm_nu = _contains(ifs[0].orelse, "span = nu_find_span(knots, degree, x)\nnu_basis_funs(knots, degree, x, span, basis)")
+        mixed = [c for c, arm in ((c, "cu") for st in ifs[0].body for c in ast.walk(st)) if isinstance(c, ast.Call)
+                 and isinstance(c.func, ast.Name) and c.func.id.startswith("nu_")] + \
+                [c for st in ifs[0].orelse for c in ast.walk(st) if isinstance(c, ast.Call) and isinstance(c.func, ast.Name)
+                 and c.func.id.startswith("cu_")]
+        if mixed:
+            ok, bad = False, f"`{src(mixed[0])[:60]}` is a routine of the other family on this arm of the dispatch"
+        elif arm_cu and arm_nu:
+            ok = True
     chk.ob("E1-dispatch", ifs[0] if ifs else cm, "collocation_matrix: cu_/nu_ span + basis", ok,
-           "each arm fills row i with the basis values of its own family at columns [span-degree, span]" if ok else
-           "collocation matrix arms no longer pair span search and basis routine of one family", file=U.INTERP,
+           "each arm fills row i with the basis values of its own family" if ok else
+           (bad or "collocation matrix arms not recognised"), file=U.INTERP,
            func="SplineInterpolator1D.collocation_matrix")
     # periodic wrap of unit coefficient vectors
     gi = smod.func("BSplines.__getitem__")
